@@ -562,6 +562,11 @@ PROPS = {
         "level": "proof",
         "level_prefix": "Partial proof -- contracts discharged without bound on the mechanisms named below, not the whole statement (bounded stand-ins and what is left out are listed): ",
         "units": ["rtypebitmap", "tsig", "rdcompose"],
+        "vx_search": {"bin": "c05_search_small_rdata", "crate": "replay", "release": True,
+                      "what": "158 small values of 21 record data types (A, AAAA, MX, SRV, NS, CNAME, PTR, DNAME, SOA, NSEC, RRSIG, DNSKEY, DS, CDS, "
+                              "TLSA, SSHFP, OPENPGPKEY, NSEC3PARAM, NSEC3, TXT, HINFO; boundary values, mixed-case names, full 32-octet bitmap "
+                              "windows, 255-octet strings): rdlen == octets written, parse(compose(x)) == x, canonical form == wire form with "
+                              "exactly the listed names lower-cased, and the same through ZoneRecordData -- on the real crate"},
         "kani": [
             {"group": "g0", "name": "c05_a_roundtrip", "kind": "complete", "tier": "quick",
              "what": "A: every address: rdlen == 4 == octets written; parse(compose(x)) == x consuming all; canonical form identical"},
@@ -615,7 +620,7 @@ PROPS = {
         ],
         "not_covered": "The macro-generated enums ZoneRecordData/AllRecordData (rdata/macros.rs: one match arm per method and variant; "
                        "extraction works on syn items, not macro bodies, and CBMC does not finish on the enum even for one variant: "
-                       "seeded change C05-6 is missed). All other types (NS-family, SOA, TXT, NAPTR, CAA, RRSIG, the NSEC/NSEC3 records around the bitmap, NSEC3PARAM, SVCB/HTTPS, OPT and its "
+                       "only the native search c05_search_small_rdata reaches it; it is what decides seeded change C05-6). All other types (NS-family, SOA, TXT, NAPTR, CAA, RRSIG, the NSEC/NSEC3 records around the bitmap, NSEC3PARAM, SVCB/HTTPS, OPT and its "
                        "options, TSIG, ZONEMD, IPSECKEY, OPENPGPKEY, CDS/CDNSKEY, Unknown/opaque carry), symbolic names inside RDATA "
                        "(CBMC does not finish on symbolic names), LongRecordData limits near 65535 octets.",
     },
